@@ -435,32 +435,79 @@ func monitorMsg(noOld bool, m mmsg, o mobs) (fs []finding) {
 		}
 		v, old := news[n], olds[n]
 		e := expect(string(m.Op), noOld, v, old)
-		okc := true
-		gn, hasN := got["new"]
-		gold, hasO := got["old"]
-		if hasN != e.hasNew || hasO != e.hasOld || len(got) != map[bool]int{true: 1, false: 0}[hasN]+map[bool]int{true: 1, false: 0}[hasO] {
-			okc = false
+		gj, _ := json.Marshal(got)
+		oldText := "none"
+		if old != nil {
+			oldText = fmt.Sprintf("%+v", *old)
 		}
-		if okc && e.hasNew && !cvMatches(gn, e.nw) {
-			okc = false
+		where := fmt.Sprintf("%s column %q (noMarshalOldValue=%v): new=%+v old=%s rendered as %s", m.Op, n, noOld, *v, oldText, gj)
+		// which rule of the property governs this column
+		rule := "new-only"
+		switch {
+		case string(m.Op) == "DELETE":
+			rule = "delete"
+		case e.hasOld:
+			rule = "changed-with-old"
 		}
-		if okc && e.hasOld && !cvMatches(gold, e.old) {
-			okc = false
-		}
-		if okc {
-			continue
-		}
-		sig := "column-entry-differs"
+		// the two known ways of failing (finding F6 and its sibling) keep their own narrow class
+		known := ""
 		if string(m.Op) != "DELETE" && old != nil {
 			switch {
 			case v.Q && string(v.V) == toastMarker && v.V != old.V:
-				sig = "quoted-toast-literal"
+				known = "quoted-toast-literal"
 			case v.V == old.V && v.Q != old.Q:
-				sig = "quoted-flag-ignored-in-change-test"
+				known = "quoted-flag-ignored-in-change-test"
 			}
 		}
-		gj, _ := json.Marshal(got)
-		add(sig, "%s column %q (noMarshalOldValue=%v): new=%+v old=%+v rendered as %s", m.Op, n, noOld, *v, *old, gj)
+		// (1) the set of members present is EXACTLY what the rule says: delete -> {old};
+		//     changed-with-old -> {new, old}; new-only -> {new}
+		bad := false
+		members := []string{}
+		for k := range got {
+			members = append(members, k)
+		}
+		sort.Strings(members)
+		for _, k := range members {
+			switch {
+			case k == "new" && e.hasNew, k == "old" && e.hasOld:
+			case k == "new" || k == "old":
+				bad = true
+				add("unexpected-member/"+k+"-in-"+rule, "%s", where)
+			default:
+				bad = true
+				add("unexpected-member/foreign-key", "member %q: %s", k, where)
+			}
+		}
+		for _, k := range []string{"new", "old"} {
+			if _, has := got[k]; has || (k == "new" && !e.hasNew) || (k == "old" && !e.hasOld) {
+				continue
+			}
+			bad = true
+			if known != "" {
+				add(known, "%s", where)
+			} else {
+				add("missing-member/"+k+"-in-"+rule, "%s", where)
+			}
+		}
+		// (2) every member present has exactly the keys q t v
+		for _, k := range members {
+			mm := got[k]
+			if len(mm) != 3 || mm["q"] == nil || mm["t"] == nil || mm["v"] == nil {
+				bad = true
+				add("member-keys-differ", "member %q does not have exactly the keys q, t, v: %s", k, where)
+			}
+		}
+		if bad {
+			continue
+		}
+		// (3) contents
+		if (e.hasNew && !cvMatches(got["new"], e.nw)) || (e.hasOld && !cvMatches(got["old"], e.old)) {
+			if known != "" {
+				add(known, "%s", where)
+			} else {
+				add("column-entry-differs/"+rule, "%s", where)
+			}
+		}
 	}
 	return
 }
@@ -745,6 +792,12 @@ func genCase(rng *rand.Rand, bad bool, bank *[]mmsg) mcase {
 		if !bad && len(*bank) < 64 {
 			*bank = append(*bank, m)
 		}
+		// a DELETE (old only) straight after a message that used "new" (and maybe "old") for the same
+		// names: the recycled pair maps must come back empty
+		if (m.Op == "INSERT" || m.Op == "UPDATE") && len(names) > 0 && rng.Intn(3) == 0 {
+			k := 1 + rng.Intn(len(names))
+			c.Msgs = append(c.Msgs, genMsg(rng, bad, "DELETE", names[:k]))
+		}
 	}
 	return c
 }
@@ -825,7 +878,7 @@ func init() {
 		for i := 0; i < n; i++ {
 			cases = append(cases, genCase(rng, rng.Intn(20) < 3, &bank))
 		}
-		rep.Rule = "corpus first, then seeded sequences of 1-5 messages through ONE real Marshaller each (package-level pools shared by the whole run): 85% with valid UTF-8 strings covering every escape class of go-json (quote, backslash, \\n \\r \\t, other C0, < > &, U+2028/9 and near misses, 2/3/4-byte characters, DEL, 8-byte-chunk boundaries), 15% malformed share with invalid UTF-8 bytes in values/types/names/tables. Shapes alternate INSERT / UPDATE with full old tuple / old key only / none / TOAST markers / DELETE / BEGIN / COMMIT / TRUNCATE / odd operations; wide then narrow; same names with different presence; about one message in six of the valid share is a change already rendered in an earlier sequence. LSNs incl. 0, 2^32-1, 2^32, 2^64-1; ServerTime incl. 0, +-1, leap days, the int64-nanosecond overflow edge, min/max int64. Every case is run a second time in reverse order for the history-independence monitor. Non-trivial: a sequence with >= 2 marshalled messages of different column sets or old/new presence; distinct by content."
+		rep.Rule = "corpus first, then seeded sequences of 1-8 messages through ONE real Marshaller each (package-level pools shared by the whole run): 85% with valid UTF-8 strings covering every escape class of go-json (quote, backslash, \\n \\r \\t, other C0, < > &, U+2028/9 and near misses, 2/3/4-byte characters, DEL, 8-byte-chunk boundaries), 15% malformed share with invalid UTF-8 bytes in values/types/names/tables. Shapes alternate INSERT / UPDATE with full old tuple / old key only / none / TOAST markers / DELETE / BEGIN / COMMIT / TRUNCATE / odd operations; wide then narrow; same names with different presence; about one message in six of the valid share is a change already rendered in an earlier sequence; one INSERT/UPDATE in three is followed directly by a DELETE over (a prefix of) the same column names. LSNs incl. 0, 2^32-1, 2^32, 2^64-1; ServerTime incl. 0, +-1, leap days, the int64-nanosecond overflow edge, min/max int64. Every case is run a second time in reverse order for the history-independence monitor. Non-trivial: a sequence with >= 2 marshalled messages of different column sets or old/new presence; distinct by content."
 		var sb strings.Builder
 		sb.WriteString("From Bifrost.model Require Import Base Json Marshal.\nOpen Scope string_scope.\nDefinition cases : list mcase := [\n")
 		seen := map[string]bool{}
@@ -876,7 +929,7 @@ func init() {
 				if fb, ok := firstBytes[k]; ok {
 					core.Bump(rep, "same-change-at-another-position")
 					if !bytes.Equal(fb, obs[j].Json) {
-						rep.Violations = append(rep.Violations, core.Violation{Property: "C10", Signature: "history-dependent-bytes",
+						rep.Violations = append(rep.Violations, core.Violation{Property: "C10", Signature: "history-dependent-output",
 							What: fmt.Sprintf("message %d rendered as %q here but as %q at %s", j, obs[j].Json, fb, firstWhere[k]), Case: c})
 					}
 				} else {
@@ -892,7 +945,7 @@ func init() {
 			} else {
 				for j := range obs {
 					if !bytes.Equal(obs[j].Json, robs[len(obs)-1-j].Json) {
-						rep.Violations = append(rep.Violations, core.Violation{Property: "C10", Signature: "history-dependent-bytes",
+						rep.Violations = append(rep.Violations, core.Violation{Property: "C10", Signature: "history-dependent-output",
 							What: fmt.Sprintf("message %d rendered as %q in order but as %q when the sequence is reversed", j, obs[j].Json, robs[len(obs)-1-j].Json), Case: c})
 					}
 				}
@@ -933,7 +986,7 @@ func replay(cs json.RawMessage) string {
 			fmt.Fprintf(&sb, "MONITOR C10 [%s]: %s\n", f.sig, f.what)
 		}
 		if len(robs) == len(obs) && !bytes.Equal(o.Json, robs[len(obs)-1-j].Json) {
-			fmt.Fprintf(&sb, "MONITOR C10 [history-dependent-bytes]: reversed sequence gives %q\n", robs[len(obs)-1-j].Json)
+			fmt.Fprintf(&sb, "MONITOR C10 [history-dependent-output]: reversed sequence gives %q\n", robs[len(obs)-1-j].Json)
 		}
 	}
 	return sb.String()
